@@ -7,31 +7,3 @@ Set Printing Width 100000000.
 Set Printing Depth 100000000.
 Fixpoint bs (l : list nat) : string := match l with [] => EmptyString | n :: r => String (Ascii.ascii_of_nat n) (bs r) end.
 Definition T_ (b : bool) : string := if b then "T" else "F".
-Definition t198 : pt := (mkPacket (mkPtok 35 "packet" 1 0 0) (Some (mkPtok 3 "}" 15 0 55)) [(DPacket (mkPacketDef (mkSpan (mkPtok 35 "packet" 1 0 0) (mkPtok 3 "}" 8 0 28)) None (mkPtok 35 "packet" 1 0 0) (mkPtok 42 "Heartbeat" 1 7 1) (mkPtok 2 "{" 1 17 2) [(mkFieldWithAttr (mkSpan (mkPtok 12 "char[" 2 4 3) (mkPtok 40 "," 3 7 8)) [] (MetaField (mkSpan (mkPtok 12 "char[" 2 4 3) (mkPtok 40 "," 3 7 8)) None (mkMetaDecl (mkSpan (mkPtok 12 "char[" 2 4 3) (mkPtok 40 "," 3 7 8)) (TyFixed (mkSpan (mkPtok 12 "char[" 2 4 3) (mkPtok 13 "]" 2 12 5)) (mkFixedString (mkSpan (mkPtok 12 "char[" 2 4 3) (mkPtok 13 "]" 2 12 5)) (mkPtok 12 "char[" 2 4 3) (mkPtok 30 "3" 2 10 4) (mkPtok 13 "]" 2 12 5))) (mkPtok 42 "seq" 2 14 6) (Some (mkPtok 43 (string_of_bytes [96; 108; 105; 110; 101; 49; 10; 108; 105; 110; 101; 50; 96]%N) 2 18 7)) (mkPtok 40 "," 3 7 8)))); (mkFieldWithAttr (mkSpan (mkPtok 29 "f64" 4 4 9) (mkPtok 40 "," 4 14 11)) [] (MetaField (mkSpan (mkPtok 29 "f64" 4 4 9) (mkPtok 40 "," 4 14 11)) None (mkMetaDecl (mkSpan (mkPtok 29 "f64" 4 4 9) (mkPtok 40 "," 4 14 11)) (TyBasic (mkSpan (mkPtok 29 "f64" 4 4 9) (mkPtok 29 "f64" 4 4 9)) (mkBasicType (mkSpan (mkPtok 29 "f64" 4 4 9) (mkPtok 29 "f64" 4 4 9)) (mkPtok 29 "f64" 4 4 9))) (mkPtok 42 "flags" 4 8 10) None (mkPtok 40 "," 4 14 11)))); (mkFieldWithAttr (mkSpan (mkPtok 14 "zchar[" 5 4 13) (mkPtok 40 "," 5 27 18)) [] (MetaField (mkSpan (mkPtok 14 "zchar[" 5 4 13) (mkPtok 40 "," 5 27 18)) None (mkMetaDecl (mkSpan (mkPtok 14 "zchar[" 5 4 13) (mkPtok 40 "," 5 27 18)) (TyFixed (mkSpan (mkPtok 14 "zchar[" 5 4 13) (mkPtok 13 "]" 5 14 15)) (mkFixedString (mkSpan (mkPtok 14 "zchar[" 5 4 13) (mkPtok 13 "]" 5 14 15)) (mkPtok 14 "zchar[" 5 4 13) (mkPtok 30 "16" 5 11 14) (mkPtok 13 "]" 5 14 15))) (mkPtok 42 "code" 5 16 16) (Some (mkPtok 43 "`doc`" 5 21 17)) (mkPtok 40 "," 5 27 18)))); (mkFieldWithAttr (mkSpan (mkPtok 12 "char[" 6 4 19) (mkPtok 40 "," 6 20 23)) [] (MetaField (mkSpan (mkPtok 12 "char[" 6 4 19) (mkPtok 40 "," 6 20 23)) None (mkMetaDecl (mkSpan (mkPtok 12 "char[" 6 4 19) (mkPtok 40 "," 6 20 23)) (TyFixed (mkSpan (mkPtok 12 "char[" 6 4 19) (mkPtok 13 "]" 6 12 21)) (mkFixedString (mkSpan (mkPtok 12 "char[" 6 4 19) (mkPtok 13 "]" 6 12 21)) (mkPtok 12 "char[" 6 4 19) (mkPtok 30 "8" 6 10 20) (mkPtok 13 "]" 6 12 21))) (mkPtok 42 "count" 6 14 22) None (mkPtok 40 "," 6 20 23)))); (mkFieldWithAttr (mkSpan (mkPtok 25 "int16" 7 4 24) (mkPtok 40 "," 7 22 27)) [] (MetaField (mkSpan (mkPtok 25 "int16" 7 4 24) (mkPtok 40 "," 7 22 27)) None (mkMetaDecl (mkSpan (mkPtok 25 "int16" 7 4 24) (mkPtok 40 "," 7 22 27)) (TyBasic (mkSpan (mkPtok 25 "int16" 7 4 24) (mkPtok 25 "int16" 7 4 24)) (mkBasicType (mkSpan (mkPtok 25 "int16" 7 4 24) (mkPtok 25 "int16" 7 4 24)) (mkPtok 25 "int16" 7 4 24))) (mkPtok 42 "ref_id" 7 10 25) (Some (mkPtok 43 (string_of_bytes [96; 230; 182; 136; 230; 129; 175; 96]%N) 7 17 26)) (mkPtok 40 "," 7 22 27))))] (mkPtok 3 "}" 8 0 28))); (DPacket (mkPacketDef (mkSpan (mkPtok 34 "root" 10 0 30) (mkPtok 3 "}" 15 0 55)) (Some (mkPtok 34 "root" 10 0 30)) (mkPtok 35 "packet" 10 5 31) (mkPtok 42 "Entry" 10 12 32) (mkPtok 2 "{" 10 18 33) [(mkFieldWithAttr (mkSpan (mkPtok 20 "u8" 11 4 34) (mkPtok 40 "," 11 29 39)) [] (LengthField (mkSpan (mkPtok 20 "u8" 11 4 34) (mkPtok 40 "," 11 29 39)) (mkLengthFieldDecl (mkSpan (mkPtok 20 "u8" 11 4 34) (mkPtok 40 "," 11 29 39)) (Some (TyBasic (mkSpan (mkPtok 20 "u8" 11 4 34) (mkPtok 20 "u8" 11 4 34)) (mkBasicType (mkSpan (mkPtok 20 "u8" 11 4 34) (mkPtok 20 "u8" 11 4 34)) (mkPtok 20 "u8" 11 4 34)))) (mkPtok 42 "length" 11 7 35) (mkLengthOf (mkSpan (mkPtok 7 "@lengthOf(" 11 14 36) (mkPtok 6 ")" 11 27 38)) (mkPtok 7 "@lengthOf(" 11 14 36) (mkPtok 42 "c" 11 25 37) (mkPtok 6 ")" 11 27 38)) None (mkPtok 40 "," 11 29 39)))); (mkFieldWithAttr (mkSpan (mkPtok 16 "char[]" 12 4 40) (mkPtok 40 "," 12 16 42)) [] (MetaField (mkSpan (mkPtok 16 "char[]" 12 4 40) (mkPtok 40 "," 12 16 42)) None (mkMetaDecl (mkSpan (mkPtok 16 "char[]" 12 4 40) (mkPtok 40 "," 12 16 42)) (TyDynamic (mkSpan (mkPtok 16 "char[]" 12 4 40) (mkPtok 16 "char[]" 12 4 40)) (mkDynamicString (mkSpan (mkPtok 16 "char[]" 12 4 40) (mkPtok 16 "char[]" 12 4 40)) (mkPtok 16 "char[]" 12 4 40))) (mkPtok 42 "kind" 12 11 41) None (mkPtok 40 "," 12 16 42)))); (mkFieldWithAttr (mkSpan (mkPtok 16 "char[]" 13 4 43) (mkPtok 40 "," 13 19 46)) [] (MetaField (mkSpan (mkPtok 16 "char[]" 13 4 43) (mkPtok 40 "," 13 19 46)) None (mkMetaDecl (mkSpan (mkPtok 16 "char[]" 13 4 43) (mkPtok 40 "," 13 19 46)) (TyDynamic (mkSpan (mkPtok 16 "char[]" 13 4 43) (mkPtok 16 "char[]" 13 4 43)) (mkDynamicString (mkSpan (mkPtok 16 "char[]" 13 4 43) (mkPtok 16 "char[]" 13 4 43)) (mkPtok 16 "char[]" 13 4 43))) (mkPtok 42 "c" 13 11 44) (Some (mkPtok 43 "`doc`" 13 13 45)) (mkPtok 40 "," 13 19 46)))); (mkFieldWithAttr (mkSpan (mkPtok 9 "@tag(" 14 4 48) (mkPtok 40 "," 14 30 54)) [(FATag (mkSpan (mkPtok 9 "@tag(" 14 4 48) (mkPtok 6 ")" 14 13 50)) (mkTagAttr (mkSpan (mkPtok 9 "@tag(" 14 4 48) (mkPtok 6 ")" 14 13 50)) (mkPtok 9 "@tag(" 14 4 48) (mkPtok 30 "49" 14 10 49) (mkPtok 6 ")" 14 13 50)))] (MetaField (mkSpan (mkPtok 24 "int8" 14 15 51) (mkPtok 40 "," 14 30 54)) None (mkMetaDecl (mkSpan (mkPtok 24 "int8" 14 15 51) (mkPtok 40 "," 14 30 54)) (TyBasic (mkSpan (mkPtok 24 "int8" 14 15 51) (mkPtok 24 "int8" 14 15 51)) (mkBasicType (mkSpan (mkPtok 24 "int8" 14 15 51) (mkPtok 24 "int8" 14 15 51)) (mkPtok 24 "int8" 14 15 51))) (mkPtok 42 "seq" 14 20 52) (Some (mkPtok 43 "`doc`" 14 24 53)) (mkPtok 40 "," 14 30 54))))] (mkPtok 3 "}" 15 0 55)))]).
-Eval vm_compute in ("<<<W198_alias_short>>>" ++ sh_escaped (render (rw_alias_short t198)) "").
-Eval vm_compute in ("<<<W198_alias_long>>>" ++ sh_escaped (render (rw_alias_long t198)) "").
-Eval vm_compute in ("<<<W198_alias_long_opts>>>" ++ sh_escaped (render (rw_alias_long_opts t198)) "").
-Eval vm_compute in ("<<<W198_zchar>>>" ++ sh_escaped (render (rw_zchar t198)) "").
-Eval vm_compute in ("<<<W198_drop_default_pad>>>" ++ sh_escaped (render (rw_drop_default_pad t198)) "").
-Eval vm_compute in ("<<<W198_add_default_pad>>>" ++ sh_escaped (render (rw_add_default_pad t198)) "").
-Eval vm_compute in ("<<<W198_prefix_attr>>>" ++ sh_escaped (render (rw_prefix_attr t198)) "").
-Eval vm_compute in ("<<<W198_default_options>>>" ++ sh_escaped (render (rw_default_options t198)) "").
-Eval vm_compute in ("<<<W198_expand_keys>>>" ++ sh_escaped (render (rw_expand_keys t198)) "").
-Eval vm_compute in ("<<<W198_inline_meta>>>" ++ sh_escaped (render (rw_inline_meta t198)) "").
-Eval vm_compute in ("<<<W198_seps_all>>>" ++ sh_escaped (render (rw_seps_all t198)) "").
-Eval vm_compute in ("<<<W198_seps_none>>>" ++ sh_escaped (render (rw_seps_none t198)) "").
-Eval vm_compute in ("<<<W198_drop_docs>>>" ++ sh_escaped (render (rw_drop_docs t198)) "").
-Definition t508 : pt := (mkPacket (mkPtok 34 "root" 1 0 0) (Some (mkPtok 3 "}" 4 0 12)) [(DPacket (mkPacketDef (mkSpan (mkPtok 34 "root" 1 0 0) (mkPtok 3 "}" 4 0 12)) (Some (mkPtok 34 "root" 1 0 0)) (mkPtok 35 "packet" 1 5 1) (mkPtok 42 "SimpleMessage" 1 12 2) (mkPtok 2 "{" 1 26 3) [(mkFieldWithAttr (mkSpan (mkPtok 21 "uint16" 2 4 4) (mkPtok 40 "," 2 25 7)) [] (MetaField (mkSpan (mkPtok 21 "uint16" 2 4 4) (mkPtok 40 "," 2 25 7)) None (mkMetaDecl (mkSpan (mkPtok 21 "uint16" 2 4 4) (mkPtok 40 "," 2 25 7)) (TyBasic (mkSpan (mkPtok 21 "uint16" 2 4 4) (mkPtok 21 "uint16" 2 4 4)) (mkBasicType (mkSpan (mkPtok 21 "uint16" 2 4 4) (mkPtok 21 "uint16" 2 4 4)) (mkPtok 21 "uint16" 2 4 4))) (mkPtok 42 "MsgType" 2 11 5) (Some (mkPtok 43 (string_of_bytes [96; 230; 182; 136; 230; 129; 175; 231; 177; 187; 229; 158; 139; 96]%N) 2 19 6)) (mkPtok 40 "," 2 25 7)))); (mkFieldWithAttr (mkSpan (mkPtok 15 "string" 3 4 8) (mkPtok 40 "," 3 32 11)) [] (MetaField (mkSpan (mkPtok 15 "string" 3 4 8) (mkPtok 40 "," 3 32 11)) None (mkMetaDecl (mkSpan (mkPtok 15 "string" 3 4 8) (mkPtok 40 "," 3 32 11)) (TyDynamic (mkSpan (mkPtok 15 "string" 3 4 8) (mkPtok 15 "string" 3 4 8)) (mkDynamicString (mkSpan (mkPtok 15 "string" 3 4 8) (mkPtok 15 "string" 3 4 8)) (mkPtok 15 "string" 3 4 8))) (mkPtok 42 "JsonBody" 3 11 9) (Some (mkPtok 43 (string_of_bytes [96; 74; 115; 111; 110; 229; 173; 151; 231; 172; 166; 228; 184; 178; 230; 182; 136; 230; 129; 175; 228; 189; 147; 96]%N) 3 20 10)) (mkPtok 40 "," 3 32 11))))] (mkPtok 3 "}" 4 0 12)))]).
-Eval vm_compute in ("<<<W508_alias_short>>>" ++ sh_escaped (render (rw_alias_short t508)) "").
-Eval vm_compute in ("<<<W508_alias_long>>>" ++ sh_escaped (render (rw_alias_long t508)) "").
-Eval vm_compute in ("<<<W508_alias_long_opts>>>" ++ sh_escaped (render (rw_alias_long_opts t508)) "").
-Eval vm_compute in ("<<<W508_zchar>>>" ++ sh_escaped (render (rw_zchar t508)) "").
-Eval vm_compute in ("<<<W508_drop_default_pad>>>" ++ sh_escaped (render (rw_drop_default_pad t508)) "").
-Eval vm_compute in ("<<<W508_add_default_pad>>>" ++ sh_escaped (render (rw_add_default_pad t508)) "").
-Eval vm_compute in ("<<<W508_prefix_attr>>>" ++ sh_escaped (render (rw_prefix_attr t508)) "").
-Eval vm_compute in ("<<<W508_default_options>>>" ++ sh_escaped (render (rw_default_options t508)) "").
-Eval vm_compute in ("<<<W508_expand_keys>>>" ++ sh_escaped (render (rw_expand_keys t508)) "").
-Eval vm_compute in ("<<<W508_inline_meta>>>" ++ sh_escaped (render (rw_inline_meta t508)) "").
-Eval vm_compute in ("<<<W508_seps_all>>>" ++ sh_escaped (render (rw_seps_all t508)) "").
-Eval vm_compute in ("<<<W508_seps_none>>>" ++ sh_escaped (render (rw_seps_none t508)) "").
-Eval vm_compute in ("<<<W508_drop_docs>>>" ++ sh_escaped (render (rw_drop_docs t508)) "").
